@@ -154,7 +154,7 @@ fn run_history<const N: usize, const H: usize>(g: &mut TaikoGradualDifficulty, w
         total += usize::from(w.is_hit[i]);
     }
     let mut v = 0usize; // values produced so far == hits passed
-    assert!(g.len() == total, "C15 taiko: len() announces one value per hit");
+    assert!(g.len() == total, "C15,C02 taiko: len() announces one value per hit");
 
     for c in w.calls.iter() {
         let available = total - v;
@@ -162,11 +162,11 @@ fn run_history<const N: usize, const H: usize>(g: &mut TaikoGradualDifficulty, w
         let res = if c.nth { g.nth(n) } else { g.next() };
         if n < available {
             v += n + 1;
-            assert!(res.is_some(), "C15 taiko: a value is produced while enough values remain");
+            assert!(res.is_some(), "C15,C02 taiko: a value is produced while enough values remain");
             let a = res.unwrap();
             assert!(a.max_combo as usize == v, "C02 taiko: max_combo equals the number of hits passed");
             assert!(g.idx == v, "C15 taiko: cursor advanced by n + 1");
-            assert!(g.len() == total - v, "C15 taiko: len() equals the number of values still to come");
+            assert!(g.len() == total - v, "C15,C02 taiko: len() equals the number of values still to come");
             let (lo, hi) = g.size_hint();
             assert!(lo == total - v && hi == Some(lo), "C15 taiko: size_hint() agrees with len()");
             if ghost {
